@@ -5,7 +5,12 @@ package main
 // supplied to Allowed through an AuthEvents provider. Observable: ok | notallowed | err | panic.
 
 import (
+	"bytes"
 	"crypto/ed25519"
+	"encoding/hex"
+	"os"
+	"os/exec"
+	"path/filepath"
 	"encoding/base64"
 	"encoding/json"
 	"fmt"
@@ -494,6 +499,14 @@ func (c *Ctx) c07Run(ver string, ev []byte, auths [][]byte, desc string) []byte 
 		return B("unparsed")
 	}
 	out := c.Run("c07.allowed", c07Args(ver, ev, auths), "C07.allowed", c07PropOp, desc)
+	if c07PropOp != "" && string(out) != "unparsed" {
+		// second oracle on the same run: the verdict against the LITERAL text of the specification;
+		// a difference must be covered by one of the 13 departures (or be a recorded finding)
+		final := c07Args(ver, ev, auths)
+		final[1] = c07SigTable(ev, auths)
+		c.emit("c07.allowed", final, out, "", "C07.prop.literal", desc)
+		c07Literal = append(c07Literal, append(append([][]byte{}, final...), out))
+	}
 	// every case in which the callback matters (an error-class verdict), and a sample of the
 	// others, is also run with the callback answering (nil, nil)
 	if string(out) == "err" || c.Rng.Intn(40) == 0 {
@@ -795,6 +808,24 @@ func c07GenGeneric(c *Ctx) {
 						s.run(c, ev, "generic/"+k.typ, fmt.Sprintf("rel=%d how=%s sm=%q L=%d", rel, how, sm, L))
 					}
 				}
+			}
+		}
+		// departure 4: content.creator names somebody else than the sender of the create event
+		for _, who := range []string{"@creator:hs1", "@other:hs1"} {
+			for _, what := range []string{"topic", "first-join", "pl"} {
+				n++
+				s := c07NewScene(ver, fmt.Sprintf("g%d", n), who, J{"creator": "@other:hs1"}, nil, "join")
+				var ev []byte
+				switch what {
+				case "topic":
+					ev = s.r.event(s.r.eventID("e"), "m.room.topic", who, sp(""), J{"topic": "x"}, []string{s.r.eventID("p")}, nil)
+				case "first-join":
+					s.auths = s.auths[:1]
+					ev = s.r.event(s.r.eventID("e"), "m.room.member", who, sp(who), J{"membership": "join"}, []string{s.r.createID}, nil)
+				case "pl":
+					ev = s.r.event(s.r.eventID("e"), "m.room.power_levels", who, sp(""), J{"users": J{"@other:hs1": 100}}, []string{s.r.eventID("p")}, nil)
+				}
+				s.run(c, ev, "generic/creator-field", fmt.Sprintf("who=%s what=%s", who, what))
 			}
 		}
 		// state keys starting with '@'
@@ -1366,6 +1397,57 @@ func c07GenRandom(c *Ctx, count int) {
 	}
 }
 
+// cases for the departure histogram: args ++ [verdict]
+var c07Literal [][][]byte
+
+// c07DepartureHistogram asks the extracted model (build/model_runner, built before the harness
+// runs) which departures explain each case's difference from the literal text, and records the
+// classes in the input-distribution histogram of the evidence.
+func c07DepartureHistogram(c *Ctx) {
+	runner := filepath.Join("build", "model_runner")
+	if _, err := os.Stat(runner); err != nil || len(c07Literal) == 0 {
+		c.Count("literal/histogram-unavailable")
+		return
+	}
+	var in bytes.Buffer
+	for i, args := range c07Literal {
+		fmt.Fprintf(&in, "L%d\tcorr\tC07.literal_report\t%s\n", i, hexArgs(args))
+	}
+	cmd := exec.Command("bash", "-c", "ulimit -s unlimited 2>/dev/null; exec \"$0\"", runner)
+	cmd.Stdin = &in
+	outb, err := cmd.Output()
+	if err != nil {
+		c.Count("literal/histogram-unavailable")
+		return
+	}
+	for _, line := range strings.Split(string(outb), "\n") {
+		parts := strings.Split(line, "\t")
+		if len(parts) != 2 {
+			continue
+		}
+		b, err := hex.DecodeString(parts[1])
+		if err != nil {
+			continue
+		}
+		cls := string(b)
+		switch {
+		case strings.HasPrefix(cls, "dep:"):
+			for _, k := range strings.Split(cls[4:], ",") {
+				c.Count(fmt.Sprintf("literal/decided-by-departure-%s", k))
+			}
+			c.Count("literal/differs-by-departure")
+		case strings.HasPrefix(cls, "joint:"):
+			for _, k := range strings.Split(cls[6:], ",") {
+				c.Count(fmt.Sprintf("literal/jointly-departure-%s", k))
+			}
+			c.Count("literal/differs-by-departures-jointly")
+		default:
+			c.Count("literal/" + cls)
+		}
+	}
+	c07Literal = nil
+}
+
 func c07All(c *Ctx) {
 	c07GenMembership(c)
 	c07GenMemberBoundaries(c)
@@ -1380,6 +1462,7 @@ func c07All(c *Ctx) {
 	c08GenExhaustive(e)
 	c08GenSpellings(e)
 	c08GenHistories(e, c.Scale(40, 600))
+	c07DepartureHistogram(c)
 }
 
 func init() {
